@@ -14,7 +14,7 @@ from core import event_tok, gs, hx
 from pyjelly import jelly
 
 VIOLATIONS = [
-    "id_out_of_range_entry", "implicit_id_after_last_slot", "id_out_of_range_ref", "unfilled_ref", "datatype_zero", "datatype_disabled",
+    "id_out_of_range_entry", "implicit_id_after_last_slot", "id_out_of_range_ref", "unfilled_ref", "unfilled_gap_ref", "datatype_zero", "datatype_disabled",
     "repeated_without_previous", "repeated_in_quoted", "missing_options", "row_kind", "triple_outside_graph",
     "unsupported_version", "unsupported_type",
 ]
